@@ -2,8 +2,10 @@ package main
 
 import (
 	"fmt"
+	"go/constant"
 	"go/token"
 	"go/types"
+	"sort"
 	"strings"
 
 	"golang.org/x/tools/go/ssa"
@@ -239,9 +241,44 @@ func compositeSites(le *linEval, fn *ssa.Function, single []wireSite) []wireSite
 	})
 	// ---- writes
 	type wkey struct {
-		root ssa.Value
+		root string // the root by address shape: m.Raw[2], m.Raw[3] = ... loads the field once per element
 		src  ssa.Value
 		blk  *ssa.BasicBlock
+	}
+	rk := newKeyer()
+	rk.pureFieldLoads = true
+	rootKey := func(st *wireSite) string {
+		// loads of one heap field within a block denote the same slice as long as nothing between
+		// them can store the field: no call and no store to that field between the group's stores
+		// (checked when the group is closed)
+		return rk.Key(st.Root)
+	}
+	sameFieldUntouched := func(a, b ssa.Instruction) bool {
+		if a.Block() != b.Block() {
+			return false
+		}
+		i, j := instrIndex(a), instrIndex(b)
+		if i > j {
+			i, j = j, i
+		}
+		if i == j {
+			return true
+		}
+		for _, in := range a.Block().Instrs[i+1 : j] {
+			switch x := in.(type) {
+			case *ssa.Call:
+				if _, isB := x.Call.Value.(*ssa.Builtin); !isB {
+					return false
+				}
+			case *ssa.Store:
+				if _, isFA := x.Addr.(*ssa.FieldAddr); isFA {
+					return false
+				}
+			case *ssa.Go, *ssa.Defer:
+				return false
+			}
+		}
+		return true
 	}
 	type wbyte struct {
 		site  *wireSite
@@ -271,7 +308,7 @@ func compositeSites(le *linEval, fn *ssa.Function, single []wireSite) []wireSite
 		if bitsOf(v.Type()) == 0 || bitsOf(v.Type()) == 8 {
 			continue
 		}
-		k := wkey{st.Root, v, st.In.Block()}
+		k := wkey{rootKey(st), v, st.In.Block()}
 		if _, have := groups[k]; !have {
 			order = append(order, k)
 		}
@@ -311,8 +348,82 @@ func compositeSites(le *linEval, fn *ssa.Function, single []wireSite) []wireSite
 		if !okAll {
 			continue
 		}
+		for _, b := range g {
+			if !sameFieldUntouched(first.In, b.site.In) {
+				okAll = false
+			}
+		}
+		if !okAll {
+			continue
+		}
 		hi := first.Lo.add(linExpr{C: n, Terms: map[string]int64{}}, 1)
 		out = append(out, wireSite{In: last, Kind: fmt.Sprintf("PutUint%d", bits), Role: "dst", Root: first.Root, Lo: first.Lo, Hi: &hi, Val: k.src, Width: n})
+	}
+	// constant groups: b[4], b[5], b[6], b[7] = 0x21, 0x12, 0xa4, 0x42 (the bytes of a constant the compiler
+	// has folded): a maximal run of 2, 4 or 8 constant byte stores at consecutive constant offsets in one block
+	type cbyte struct {
+		site *wireSite
+		off  int64
+		val  int64
+	}
+	cgroups := map[string][]cbyte{}
+	var corder []string
+	for i := range single {
+		st := &single[i]
+		if st.Kind != "store" {
+			continue
+		}
+		c, isC := st.Val.(*ssa.Const)
+		if !isC || c.Value == nil || bitsOf(c.Type()) != 8 {
+			continue
+		}
+		off, okOff := st.Lo.isConst()
+		v, okV := constInt(c)
+		if !okOff || !okV {
+			continue
+		}
+		key := fmt.Sprintf("%s|b%d", rootKey(st), st.In.Block().Index)
+		if _, have := cgroups[key]; !have {
+			corder = append(corder, key)
+		}
+		cgroups[key] = append(cgroups[key], cbyte{st, off, v & 0xff})
+	}
+	for _, key := range corder {
+		g := cgroups[key]
+		sort.Slice(g, func(i, j int) bool { return g[i].off < g[j].off })
+		for i := 0; i < len(g); {
+			j := i
+			for j+1 < len(g) && g[j+1].off == g[j].off+1 {
+				j++
+			}
+			n := int64(j - i + 1)
+			if n == 2 || n == 4 || n == 8 {
+				okRun := true
+				var val uint64
+				var last ssa.Instruction
+				for _, b := range g[i : j+1] {
+					val = val<<8 | uint64(b.val)
+					if !sameFieldUntouched(g[i].site.In, b.site.In) {
+						okRun = false
+					}
+					if last == nil || instrIndex(b.site.In) > instrIndex(last) {
+						last = b.site.In
+					}
+				}
+				if okRun {
+					var tt types.Type = types.Typ[types.Uint16]
+					switch n {
+					case 4:
+						tt = types.Typ[types.Uint32]
+					case 8:
+						tt = types.Typ[types.Uint64]
+					}
+					hi := g[i].site.Lo.add(linExpr{C: n, Terms: map[string]int64{}}, 1)
+					out = append(out, wireSite{In: last, Kind: fmt.Sprintf("PutUint%d", n*8), Role: "dst", Root: g[i].site.Root, Lo: g[i].site.Lo, Hi: &hi, Val: ssa.NewConst(constant.MakeUint64(val), tt), Width: n})
+				}
+			}
+			i = j + 1
+		}
 	}
 	return out
 }
